@@ -102,6 +102,10 @@ class Minimiser:
             def m(c, d=d):
                 c["env"]["listdir"].pop(d, None)
             case = self.try_one(case, "listdir(%s) -> sorted" % d, m)
+        if case["env"].get("listdir_default", "sorted") != "sorted":
+            case = self.try_one(case, "other directories -> sorted", env_set("listdir_default", "sorted"))
+            if case["env"].get("listdir_default", "sorted") != "sorted":
+                case = self.try_one(case, "other directories -> reversed", env_set("listdir_default", "reversed"))
         case = self.try_one(case, "no stray directory entries", env_set("extra_entries", {}))
         case = self.try_one(case, "clock -> fixed instant", env_set("clock", ["2026-01-01T00:00:00"]))
         case = self.try_one(case, "stdout -> block buffered", env_set("stdout_mode", "block"))
